@@ -812,9 +812,28 @@ def validate_observations(rep, obs, prefix, workers, chunk=20000):
     return rejects
 
 
+def replay(path) -> int:
+    """./check C02 --replay <file>: run the recorded case again on the real code and show it next to the record."""
+    rec = json.loads(open(path).read())
+    case = rec.get("case", {})
+    print(f"property={rec.get('property')} key={rec.get('key')}\n  what: {rec.get('what')}")
+    if "t" in case and "x" in case:
+        tp = gamma_type(case["t"])
+        for ch in ([case["channel"]] if case.get("channel") else channels(case["x"])):
+            now = run_one(make_parser(tp), tp, case["x"], ch)
+            print(f"  now ({ch}): {python_repro(case['t'], case['x'], ch)}\n    -> {json.dumps(now)}")
+        print("  recorded: " + json.dumps({k: case[k] for k in ("ref_accepts", "ref_results", "alg", "observed", "failed_clauses") if k in case})[:2000])
+    elif "t" in case:
+        try:
+            make_parser(gamma_type(case["t"]))
+            print("  now: add_argument succeeds")
+        except Exception as ex:
+            print(f"  now: add_argument raises {type(ex).__name__}: {ex}")
+    return 0
+
+
 if __name__ == "__main__":
     args = sys.argv[1:]
     if args and args[0] == "--replay":
-        print(open(args[1]).read())
-        sys.exit(0)
+        sys.exit(replay(args[1]))
     sys.exit(main(args))
